@@ -119,6 +119,7 @@ type Machine struct {
 	domLit      map[int32]*Term
 	pcSingle    int
 	pcSet       map[*Term]bool
+	idnaErr     map[string]*Term
 	origin      map[*Term][]*Term
 	steps       int
 	stepBudget  int
@@ -213,6 +214,7 @@ func (m *Machine) resetPath(item WorkItem) {
 	m.domLit = map[int32]*Term{}
 	m.pcSingle = 0
 	m.pcSet = map[*Term]bool{}
+	m.idnaErr = map[string]*Term{}
 	m.origin = map[*Term][]*Term{}
 	m.steps = 0
 	m.depth = 0
